@@ -3,6 +3,7 @@ from .. import sx as SX
 from ..facts import AnalysisBroken
 from ..kprogress import Progress
 from .. import kterm as KT
+import re
 
 EXPLANATION = (
     "Cursor accounting of the scanner decided on all paths: (R15.1) every token's text equals the characters consumed for it — a literal "
@@ -62,17 +63,42 @@ def run(prog, chk):
     scanners = [f for f in L.fns if f.kind == 'method' and f.short not in ('advance', 'match', 'peek', 'peekNext', 'makeToken', 'reportError')]
     cls_by_fn = {}
     nsites = 0
+    # single-step helpers that do the line/column bookkeeping themselves (`char c = advance(); if (c == '\n') { line++; column = 1; }`):
+    # a call of one is a consumption site whose newline case is handled inside the helper — provided the helper's own
+    # obligations below hold, which are checked like any other scanner's
+    tracked = {}
+    for f in scanners:
+        if f.short in ('scanToken', 'tokenize', 'skipWhitespace'):
+            continue
+        g = prog.cfg(f)
+        own = [c for c in g.calls(lambda e: e['k'] == 'mcall' and e['callee'] in (fns['advance'].name, fns['match'].name))]
+        movers = [c for c in g.calls(lambda e: e['k'] == 'mcall' and L.callee_of(e) is not None and L.callee_of(e).key in L.moves)]
+        toks = [c for c in g.calls(lambda e: e['k'] == 'mcall' and e['callee'] == mk.name)]
+        if len(own) == 1 and len(movers) == 1 and own[0].e['callee'] == fns['advance'].name and not g.loops() and not toks \
+                and not any('Token' in (n.e.get('e') or {}).get('type', '') for n in g.nodes if n.kind == 'return' and SX.is_node(n.e.get('e'))) \
+                and g.must_precede(own, g.exit) and _helper_tracks(g, own[0]):
+            tracked[f.name] = f
+            L.ONE.add(f.key)
     for f in scanners:
         g = prog.cfg(f)
         L._g = g
-        sites = [c for c in g.calls(lambda e: e['k'] == 'mcall' and e['callee'] in (fns['advance'].name, fns['match'].name))]
+        sites = [c for c in g.calls(lambda e: e['k'] == 'mcall' and e['callee'] in (fns['advance'].name, fns['match'].name) or (e['k'] == 'mcall' and e['callee'] in tracked))]
         classes = []
         for s in sites:
             nsites += 1
             k = _classify(prog, L, g, f, s, fns, sites)
+            if s.e['callee'] in tracked and k != 'non-newline':
+                k = 'tracked'
+            if s.e['callee'] == fns['match'].name and SX.real_args(s.e):
+                # a site fed from a table column stands for one site per row
+                nsites += max(0, len(_table_rows(prog, f, SX.real_args(s.e)[0]) or []) - 1)
             classes.append((s, k))
         cls_by_fn[f.key] = classes
         for s, k in classes:
+            if k == 'tracked':
+                chk.ob('R15.2', f, s.ln, True, 'consumes one character through %s, which adjusts line/column itself when it is a newline' % SX.short(s.e['callee']),
+                       key='site:%s:%s' % (f.short, _site_key(s)), nontrivial=False)
+                continue
             if k == 'non-newline':
                 chk.ob('R15.2', f, s.ln, True, 'consumes a character known not to be a newline', key='site:%s:%s' % (f.short, _site_key(s)), nontrivial=False)
                 continue
@@ -85,7 +111,7 @@ def run(prog, chk):
                 # unknown: the consumed character must be tested against '\n' right away
                 start = None
                 for e in g.nodes:
-                    if e.kind == 'edge' and e.pol and _tests_newline_of(e.e, s):
+                    if e.kind == 'edge' and e.pol and _tests_newline_of(e.e, s, g):
                         start = e
                 if start is None:
                     chk.ob('R15.2', f, s.ln, False, 'consumes an arbitrary character (possibly a newline) without testing it for \'\\n\' and adjusting line/column',
@@ -128,7 +154,7 @@ def run(prog, chk):
             ntok += 1
             chk.ob('R15.4', f, t.ln, not may_nl, 'makeToken (end-minus-length column) is used in %s, which %s' % (f.short, 'can consume a newline' if may_nl else 'consumes no newline'),
                    key='formula-use:%s' % f.short, nontrivial=may_nl)
-            _text_rule(prog, chk, L, g, f, t, SX.real_args(t.e)[1], fns, st)
+            ntok += _text_rule(prog, chk, L, g, f, t, SX.real_args(t.e)[1], fns, st) or 0
         for a in aggs:
             ntok += 1
             items = SX.strip(a.e['e']).get('items') or SX.real_args(SX.strip(a.e['e']))
@@ -280,6 +306,13 @@ def _classify(prog, L, g, f, s, fns, sites):
         a = SX.strip(SX.real_args(s.e)[0])
         if a.get('k') == 'char':
             return 'newline' if a['v'] == NL else 'non-newline'
+        # match(rule.follow) for a row of a constant table: the class of every value the table holds in that column
+        tb = _table_rows(prog, f, a)
+        if tb is not None:
+            vals = [SX.strip(r.get(a['name'])) for r in tb]
+            if vals and all(SX.is_node(v) and v.get('k') == 'char' for v in vals):
+                if all(v['v'] != NL for v in vals):
+                    return 'non-newline'
         return 'unknown'
     # the first consumption of scanToken: premise checked separately (tokenize/skipWhitespace)
     if f.short == 'scanToken':
@@ -292,22 +325,39 @@ def _classify(prog, L, g, f, s, fns, sites):
     return {'NN': 'non-newline', 'NL': 'newline'}.get(facts.get(s.id, 'U'), 'unknown')
 
 
-def _tests_newline_of(ce, s):
-    """condition `advance() == '\\n'` on the very call s"""
+def _tests_newline_of(ce, s, g=None):
+    """condition `advance() == '\\n'` on the very call s, or `c == '\\n'` for a local `char c = advance()` (that call) never reassigned"""
     cp = SX.cmp_parts(ce)
     if not cp or cp[0] != '==':
         return False
     for a, b in ((cp[1], cp[2]), (cp[2], cp[1])):
         a, b = SX.strip(a), SX.strip(b)
         while SX.is_node(a) and a['k'] == 'cast':
-            a = a['e']
-        if a is s.e and SX.is_node(b) and b.get('k') == 'char' and b['v'] == NL:
+            a = SX.strip(a['e'])
+        if not (SX.is_node(b) and b.get('k') == 'char' and b['v'] == NL):
+            continue
+        if a is s.e:
             return True
+        if g is not None and SX.is_node(a) and a.get('k') == 'ref' and a.get('kind') == 'var':
+            for d in g.nodes:
+                if d.kind == 'decl' and d.e.get('id') == a.get('id'):
+                    i = SX.strip(d.e.get('init'))
+                    while SX.is_node(i) and i['k'] == 'cast':
+                        i = SX.strip(i['e'])
+                    rew = [n for n, l, r, op in g.writes() if SX.is_node(SX.strip(l)) and SX.strip(l).get('id') == a.get('id')]
+                    if i is s.e and not rew:
+                        return True
     return False
+
+
+def _helper_tracks(g, site):
+    """the helper tests the character it consumed for a newline (its obligations are then checked like any scanner's)"""
+    return any(e.kind == 'edge' and e.pol and _tests_newline_of(e.e, site, g) for e in g.nodes)
 
 
 def _text_rule(prog, chk, L, g, f, node, text, fns, st):
     from ..kcanon import Canon
+    raw = SX.strip(text)
     text = SX.strip(Canon(prog, f).expand(SX.strip(text)))
     # (a) literal spelling in scanToken
     lit = None
@@ -338,6 +388,15 @@ def _text_rule(prog, chk, L, g, f, node, text, fns, st):
             exp = c0 + ''.join(follow)
         chk.ob('R15.1', f, node.ln, exp is not None and lit == exp, 'token text "%s" must be the consumed characters "%s"' % (lit, exp), key='text:literal:%s' % lit)
         return
+    # (a') table-driven spelling: makeToken(rule.type, rule.text) for a row of a constant table
+    tx = raw
+    while SX.is_node(tx) and tx.get('k') in ('construct', 'cast') and (tx['k'] == 'cast' or len(SX.real_args(tx)) == 1):
+        tx = SX.strip(tx['e'] if tx['k'] == 'cast' else SX.real_args(tx)[0])
+    rows = _table_rows(prog, f, tx) if tx.get('k') == 'member' else None
+    if rows is not None:
+        ok, why = _table_text(prog, L, g, f, node, tx, rows, fns)
+        chk.ob('R15.1', f, node.ln, ok, 'table-driven token text: %s' % why, key='text:table:%s' % tx['name'])
+        return len(rows) - 1
     # (b) std::string(1, c) with c the consumed character
     if text.get('k') == 'construct' and len(SX.real_args(text)) == 2 and SX.strip(SX.real_args(text)[0]).get('v') == 1:
         c = SX.strip(SX.real_args(text)[1])
@@ -422,3 +481,128 @@ def _captured_start(prog, g, f, line_e, col_e, fns, classes):
     if okl and okc and not rew:
         return True, 'captured at entry: line = m_line, column = m_column − 1 (the opening character was consumed by the dispatcher)'
     return False, 'captured values are line=%s, column=%s (expected m_line, m_column − 1)' % (SX.show(li)[:20], SX.show(ci)[:24])
+
+
+def _table_rows(prog, f, m):
+    """m = <v>.<field> with v the variable of a range-for over a constant global array of records → the rows as {field: sx}"""
+    m = SX.strip(m)
+    if not (SX.is_node(m) and m.get('k') == 'member'):
+        return None
+    b = SX.strip(m.get('base'))
+    if not (SX.is_node(b) and b.get('k') == 'ref' and b.get('kind') == 'var'):
+        return None
+    for lp in SX.walk(f.body, into_lambdas=False):
+        if lp['k'] != 'forrange' or lp['var'].get('id') != b.get('id'):
+            continue
+        rng = SX.strip(lp['range'])
+        if not (SX.is_node(rng) and rng.get('k') == 'ref' and rng.get('global')):
+            return None
+        # the loop variable must not be written (a const reference or a copy never assigned)
+        if any((SX.write_target(n) or [None])[0] is not None and SX.member_chain(SX.strip(SX.write_target(n)[0]))[1] is not None
+               and SX.strip(SX.member_chain(SX.strip(SX.write_target(n)[0]))[1] or {}).get('id') == b.get('id') for n in SX.walk(lp['body'])):
+            return None
+        gls = [gl for gl in prog.facts.globals.values() if gl['name'] == rng['name'] or gl['name'].split('::')[-1] == rng['name'].split('::')[-1]]
+        gls = [gl for gl in gls if gl['file'] == f.file or gl['file'].endswith(f.file.split('/')[-1])] or gls
+        if len(gls) != 1 or not SX.is_node(gls[0].get('init')) or 'const' not in gls[0].get('type', ''):
+            return None
+        ty = re.sub(r'\b(const|constexpr)\b|&|\[\d*\]', '', gls[0].get('type', '')).strip()
+        rec = None
+        for name, r in prog.facts.records.items():
+            if name == ty or name.split('::')[-1] == ty.split('::')[-1]:
+                rec = r
+        if rec is None:
+            return None
+        fields = [x['name'] for x in rec.get('fields', [])]
+        init = SX.strip(gls[0]['init'])
+        rows = []
+        for row in init.get('items') or init.get('args') or []:
+            row = SX.strip(row)
+            items = row.get('items') or row.get('args') or []
+            if not SX.is_node(row) or row.get('k') not in ('initlist', 'construct') or len(items) != len(fields):
+                return None
+            rows.append(dict(zip(fields, items)))
+        return rows or None
+    return None
+
+
+def _table_text(prog, L, g, f, node, tx, rows, fns):
+    """every path from the loop head to the token construction fixes which columns were consumed: the dispatch character
+    (edge `rule.<lead> == c`), plus the column matched by a true match(rule.<follow>) edge; boolean columns tested on the path
+    select the rows the path applies to.  On each path every selected row's text must be those characters."""
+    bid = SX.strip(tx['base']).get('id')
+    head = [d for d in g.dominators(node) if d.kind == 'decl' and d.e.get('id') == bid]
+    if not head:
+        return False, 'row variable not bound on the way to the token'
+    head = head[0]
+    # the dispatch character: a local bound to the first advance() of the function
+    def is_dispatch(e):
+        e = SX.strip(e)
+        while SX.is_node(e) and e['k'] == 'cast':
+            e = SX.strip(e['e'])
+        if SX.is_node(e) and e.get('k') == 'ref' and e.get('kind') == 'var':
+            d = [n for n in g.nodes if n.kind == 'decl' and n.e.get('id') == e.get('id')]
+            i = SX.strip(d[0].e.get('init')) if d else None
+            return SX.is_node(i) and i.get('k') == 'mcall' and i['callee'] == fns['advance'].name and g.dominates(d[0], head)
+        return False
+
+    def col(e):
+        e = SX.strip(e)
+        while SX.is_node(e) and e['k'] == 'cast':
+            e = SX.strip(e['e'])
+        if SX.is_node(e) and e.get('k') == 'member' and SX.strip(e['base']).get('id') == bid:
+            return e['name']
+        return None
+    paths = []
+
+    def back(n, acc):
+        if len(paths) > 400:
+            return
+        if n is head:
+            paths.append(list(reversed(acc)))
+            return
+        for p in n.pred:
+            if p in acc or p.kind == 'loophead':
+                continue
+            back(p, acc + [p])
+    back(node, [node])
+    if not paths or len(paths) > 400:
+        return False, 'paths from the loop head to the token not enumerable'
+    npaths = 0
+    for path in paths:
+        lead = None
+        follow = []
+        sel = {}
+        consumed_other = False
+        for n in path:
+            if n.kind == 'edge':
+                cp = SX.cmp_parts(n.e)
+                if cp:
+                    op = cp[0] if n.pol else {'==': '!=', '!=': '=='}.get(cp[0], cp[0])
+                    for a, b in ((cp[1], cp[2]), (cp[2], cp[1])):
+                        if col(a) and is_dispatch(b) and op == '==':
+                            lead = col(a)
+                elif col(n.e):
+                    sel[col(n.e)] = n.pol
+                elif SX.is_node(n.e) and n.e.get('k') == 'mcall' and n.e['callee'] == fns['match'].name:
+                    a = SX.real_args(n.e)[0]
+                    if n.pol:
+                        if col(a):
+                            follow.append(col(a))
+                        else:
+                            consumed_other = True
+            elif n.kind == 'call' and L.callee_of(n.e) is not None and L.callee_of(n.e).key in L.moves and n.e['callee'] != fns['match'].name:
+                consumed_other = True
+        if lead is None or consumed_other:
+            return False, 'a path reaches the token without fixing the dispatch character by a table column (or consumes outside the table)'
+        npaths += 1
+        for r in rows:
+            if any(not (SX.is_node(SX.strip(r.get(c_))) and SX.strip(r[c_]).get('k') == 'bool' and bool(SX.strip(r[c_])['v']) == pol) for c_, pol in sel.items()):
+                continue
+            try:
+                exp = ''.join(chr(SX.strip(r[c_])['v']) for c_ in [lead] + follow)
+            except Exception:
+                return False, 'table columns %s are not characters' % ([lead] + follow)
+            t = SX.strip(r.get(tx['name']))
+            if not (SX.is_node(t) and t.get('k') == 'str' and t['v'] == exp):
+                return False, 'row text %s is not the consumed characters "%s" (columns %s)' % (SX.show(t), exp, '+'.join([lead] + follow))
+    return True, '%d rows × %d paths: text = %s column (+ matched follow column)' % (len(rows), npaths, 'lead')
